@@ -16,6 +16,7 @@ EXPLANATION = (
     "exclude_const decision requires both a single distinct value and that value covering the whole population; "
     "_collect_by_type groups by type(v); (d) diff_jobs is set algebra over the flattened (dotted key, value) pairs of each "
     "job: intersection over all jobs, per-job difference, no presence test that conflates a missing key with a None value."
+    ' (f) The schema and diff loops carry nothing between keys / jobs.'
 )
 UNDECIDED = "Exactness for all corpora and the reconstruction property of diff_jobs are value-level and not decided."
 
